@@ -7,7 +7,7 @@
 
      EmitTask(key, task):   PLoad [acquire.loaded | acquire.create] ; PCas1 ; PCreate [acquire.store] ;
                             PLoadOrStore [acquire.loaded2 | emit.enqueue] ; PCas2 ; PEnq [emit.release] ; PRel
-     convoy():              CPop [loop.top -> task.start | convoy.timer] ; CRun ; CTimer [convoy.checked] ;
+     convoy():              CPop [loop.top -> task.start | convoy.popov] ; CPopOv [-> task.start | convoy.timer] ; CRun ; CTimer [convoy.checked] ;
                             CClaim [convoy.claimed] ; CRecheck ; CDelete [convoy.recycle] ; CRecycle
 
    Property layer (what a user of the pool relies on):
@@ -29,6 +29,7 @@ CONSTANTS Producers,      \* model values / strings
           ChanIds,        \* channel ids (allocation bound)
           ChanCap,        \* channel capacity (UdpTaskQueueLength in the code)
           ClaimRecheck,   \* BOOLEAN, see above
+          PopRecheck,     \* BOOLEAN: popOverflowTask looks at the channel again under enqueueMu (see CPopOv)
           MaxTimer        \* (unused: busy timer firings revisit states, which the VIEW collapses)
 
 Keys == {KeyOf[p] : p \in Producers}
@@ -188,11 +189,25 @@ PRel(p) ==
   /\ UNCHANGED <<map, qkey, chanOf, chans, overflow, ovMode, poolPriv, poolShared, fresh, cpc, running, pnew, accepted, executed, timers>>
 
 (* ------------------------------------------------------------------ convoy *)
-\* popReadyTask: channel first, then overflow FIFO; nothing ready -> wait for the idle timer
+\* popReadyTask: a non-blocking look at the channel ...
 CPop(q) ==
   /\ cpc[q] = "top"
   /\ LET c == chanOf[q] IN
      IF chans[c] # <<>>
+     THEN /\ running' = [running EXCEPT ![q] = Head(chans[c])]
+          /\ chans' = [chans EXCEPT ![c] = Tail(@)]
+          /\ cpc' = [cpc EXCEPT ![q] = "task"]
+     ELSE /\ cpc' = [cpc EXCEPT ![q] = "popov"] /\ UNCHANGED <<running, chans>>
+  /\ H([a |-> "CPop", q |-> q])
+  /\ UNCHANGED <<map, qkey, refs, chanOf, overflow, ovMode, poolPriv, poolShared, fresh, ppc, pq, pnew, pn, accepted, executed, timers>>
+
+\* ... and only then popOverflowTask, under enqueueMu [convoy.popov].  Producers may have filled the channel and spilled into the
+\* overflow FIFO in between: what is in the channel is older than anything in the FIFO.  PopRecheck = TRUE looks at the channel
+\* once more under the lock (the repaired code); FALSE is the code as found: the FIFO's head overtakes the channel's content.
+CPopOv(q) ==
+  /\ cpc[q] = "popov"
+  /\ LET c == chanOf[q] IN
+     IF PopRecheck /\ chans[c] # <<>>
      THEN /\ running' = [running EXCEPT ![q] = Head(chans[c])]
           /\ chans' = [chans EXCEPT ![c] = Tail(@)]
           /\ cpc' = [cpc EXCEPT ![q] = "task"] /\ UNCHANGED <<overflow, ovMode>>
@@ -203,7 +218,7 @@ CPop(q) ==
           /\ cpc' = [cpc EXCEPT ![q] = "task"] /\ UNCHANGED chans
      ELSE /\ ovMode' = [ovMode EXCEPT ![q] = FALSE]
           /\ cpc' = [cpc EXCEPT ![q] = "timer"] /\ UNCHANGED <<running, chans, overflow>>
-  /\ H([a |-> "CPop", q |-> q])
+  /\ H([a |-> "CPopOv", q |-> q])
   /\ UNCHANGED <<map, qkey, refs, chanOf, poolPriv, poolShared, fresh, ppc, pq, pnew, pn, accepted, executed, timers>>
 
 \* the task body runs to completion
@@ -250,7 +265,7 @@ CRecycle(q) ==
   /\ UNCHANGED <<map, qkey, refs, chanOf, chans, overflow, ovMode, fresh, running, ppc, pq, pnew, pn, accepted, executed, timers>>
 
 Next == \/ \E p \in Producers : PLoad(p) \/ PCas1(p) \/ PCreate(p) \/ PLoadOrStore(p) \/ PCas2(p) \/ PEnq(p) \/ PRel(p)
-        \/ \E q \in QIds : CPop(q) \/ CRun(q) \/ CTimer(q) \/ CClaim(q) \/ CDelete(q) \/ CRecycle(q)
+        \/ \E q \in QIds : CPop(q) \/ CPopOv(q) \/ CRun(q) \/ CTimer(q) \/ CClaim(q) \/ CDelete(q) \/ CRecycle(q)
 Spec == Init /\ [][Next]_vars
 
 (* ------------------------------------------------------------------ property layer *)
@@ -279,6 +294,8 @@ Emit == Quiescent => PrintT(<<"BEHAVIOUR", ToJson(Behaviour)>>)
 View == <<map, qkey, refs, chanOf, chans, overflow, ovMode, poolPriv, poolShared, fresh, cpc, running, ppc, pq, pnew, pn, accepted, executed>>
 
 (* ------------------------------------------------------------------ model constants *)
+MC1Producers == {"p1"}
+MC1KeyOf == [p \in MC1Producers |-> "A"]
 MC3Producers == {"p1", "p2", "p3"}
 MC3KeyOf == [p \in MC3Producers |-> IF p = "p3" THEN "B" ELSE "A"]
 MC2Producers == {"p1", "p2"}
